@@ -60,8 +60,10 @@ CHECKS = {
              'Column objects of the tables under schema.name / bare / alias addressing, inline references start at the declaring '
              'column, back-pointers of columns, indexes and notes, index subjects, enum links, group members, lookups, get_refs, '
              'unique SQL key holder). Theorems: every table/column position the build produces for a reference is in range '
-             '(build_refs_in_range, locateTable_in_range, locateCols_in_range, findKey_in_range); C08.build_wellLinked extends this '
-             'to every stored position of a parsed database.',
+             '(build_refs_in_range, locateTable_in_range, locateCols_in_range, findKey_in_range; C08.build_wellLinked for every '
+             'stored position of a parsed database), and is the one the document names: buildRef_sound / locateCols_sound (each side\'s '
+             'table carries the written key, each column is the first of that table with the written name, one per name, in order), '
+             'resolveType_sound / _complete (a column type is linked to the first enum with exactly the written schema and name).',
         note=TB,
         technique='Lean build model + range theorems + identity oracle on real graphs'),
     'C06': dict(
